@@ -4,7 +4,7 @@
    External code enters as the hypotheses written out in each statement:
      inflate (deflate b) = Some b   (Go compress/gzip),
      json_norm (encoding/json Unmarshal then Marshal of a command body). *)
-From TX Require Import Model.Framing Proofs.Framing Proofs.SideC01 Gen.C01.
+From TX Require Import Model.Framing Model.WsConn Proofs.Framing Proofs.WsConn Proofs.SideC01 Gen.C01.
 
 (* (1)+(2) every list of writer-accepted packets, written with any per-packet compression choice,
    is read back as exactly those packets (type byte with the writer's flag, identical body, consumed
@@ -49,6 +49,32 @@ Theorem C01_reader_is_parser :
   parse_stream current_variant MaxPacketBodySize inflate json_norm s.
 Proof. exact (read_stream_is_parse_stream MaxPacketBodySize id_deflate). Qed.
 Print Assumptions C01_reader_is_parser.
+
+(* message transports: the WebSocket adapters (wsServerConn / wsClientConn / WebSocketStreamConn) serve the
+   buffered tail of a message before touching the next one.  Each Read of the adapter is exactly one read1
+   of the chunk oracle `ws_abs` (cuts = message lengths, carry = true), so theorems (1)-(3), which hold for
+   ALL oracles, hold for byte streams delivered through these adapters, for every message partition. *)
+Theorem C01_websocket_adapter_is_chunk_oracle :
+  forall (cap : N) (w : wsconn), (0 < cap)%N -> ws_wf w ->
+  read1 cap (ws_abs w) = match ws_read cap w with None => None | Some (got, w') => Some (got, ws_abs w') end
+  /\ match ws_read cap w with Some (_, w') => ws_wf w' | None => True end.
+Proof. exact ws_read_is_read1. Qed.
+Print Assumptions C01_websocket_adapter_is_chunk_oracle.
+
+Theorem C01_roundtrip_over_websocket :
+  forall deflate inflate json_norm,
+  (forall b, inflate (deflate b) = Some b) ->
+  forall (cps : list (bool * packet)) (msgs : list (list byte)),
+  Forall (wf_packet MaxPacketBodySize deflate json_norm) cps ->
+  concat msgs = encode_all current_variant deflate cps ->
+  read_all current_variant MaxPacketBodySize inflate json_norm (S (length (concat msgs)))
+           (ws_abs {| w_buf := []; w_msgs := msgs |})
+  = map (expect deflate) cps ++ [PErr EEnd 0].
+Proof.
+  intros deflate inflate json_norm Hid cps msgs.
+  exact (ws_roundtrip MaxPacketBodySize deflate inflate json_norm Hid max_body_fits_u32 cps msgs).
+Qed.
+Print Assumptions C01_roundtrip_over_websocket.
 
 (* the two defects of the pinned tree (repaired by fix: commits), kept as refuted statements *)
 Theorem C01_pinned_single_len_read_refuted :
